@@ -21,7 +21,7 @@ struct Ctx {
 #[derive(Clone, Hash)]
 struct Model {
     advances: u8,
-    members: [bool; 2],
+    members: [bool; 3],
     owner: usize,
     count: u32,
 }
@@ -91,7 +91,7 @@ impl Scenario for C17 {
         p.push(ops.clone());
         let probe = env.register(Probe, ());
         let probe2 = env.register(Probe, ());
-        (Ctx { w, ops, probe, probe2, p }, Model { advances: 0, members: [false; 2], owner: 3, count: 0 })
+        (Ctx { w, ops, probe, probe2, p }, Model { advances: 0, members: [false; 3], owner: 3, count: 0 })
     }
 
     fn actions(&self, _ctx: &Ctx, m: &Model) -> Vec<Act> {
@@ -102,7 +102,7 @@ impl Scenario for C17 {
             // the world's keeper (World::set_seq) keeps instance / persistent entries alive
             v.push(Act::Advance(7_000_000));
         }
-        for acct in 0..2 {
+        for acct in 0..3 {
             for by in [3usize, 4, 5] {
                 v.push(Act::AddOp { acct, by });
                 v.push(Act::RemoveOp { acct, by });
@@ -225,7 +225,7 @@ impl Scenario for C17 {
                         _ => Auth::By(&signers),
                     },
                 );
-                let member = *caller < 2 && m.members[*caller];
+                let member = *caller < 3 && m.members[*caller];
                 let want = member && *auth == 0 && target_ok;
                 out.accepted = call.ok;
                 out.expect(call.ok == want, "execute.outcome", || {
@@ -256,7 +256,7 @@ impl Scenario for C17 {
         let w = &ctx.w;
         for i in 0..6usize {
             let q = w.query(&ctx.ops, "is_operator", &[ctx.p[i].to_val()]);
-            let want = i < 2 && m.members[i];
+            let want = i < 3 && m.members[i];
             out.expect(q == Some(ScVal::Bool(want)), "probe.is_operator", || format!("account {}: {:?} vs {}", i, q, want));
         }
         let q = w.query(&ctx.ops, "owner", &[]);
@@ -275,7 +275,7 @@ fn main() {
         let mut o = Opts::new(tier, if tier == "thorough" { 12 } else { 8 });
         o.min_depth = 4;
         o.xcheck = tier == "thorough";
-        o.rule = "all sequences over add/remove operator X, Y by {owner O, other owner N, stranger}, ownership transfers O<->N (and by non-owners, to self, to the all-zero account = renouncing, to the operators contract itself, and take-over attempts afterwards), execute by caller X/Y/Z authorised by {itself, a stranger, nobody, the owner, itself but for another forwarded function with the same arguments, itself but for another target contract, itself but for other forwarded arguments} forwarding to a probe contract: echo of 12 values of different types (incl. false, true, 0, the empty string, void), add(2,3), record(7,tag) (writes + emits, bounded to 2), a target returning an error, a panicking target, a missing function, wrong arity; explored to fixpoint; is_operator for all six accounts, owner() and the probe's delivery count compared after every new state".into();
+        o.rule = "all sequences over add/remove operator X, Y, Z by {owner O, other owner N, stranger}, ownership transfers O<->N (and by non-owners, to self, to the all-zero account = renouncing, to the operators contract itself, and take-over attempts afterwards), execute by caller X/Y/Z authorised by {itself, a stranger, nobody, the owner, itself but for another forwarded function with the same arguments, itself but for another target contract, itself but for other forwarded arguments} forwarding to a probe contract: echo of 12 values of different types (incl. false, true, 0, the empty string, void), add(2,3), record(7,tag) (writes + emits, bounded to 2), a target returning an error, a panicking target, a missing function, wrong arity; explored to fixpoint; is_operator for all six accounts, owner() and the probe's delivery count compared after every new state".into();
         (C17, o)
     });
 }
